@@ -197,6 +197,16 @@ def run_cases(ck, cases):
     for c, a, e in zip(cases, answers, outs):
         v, d = compare(c, a, e)
         res.append((c, v, d, e, a))
+    # a two-statement case whose run fails: if its FIRST statement fails on its own, the failure belongs to that
+    # statement (covered by the single-statement stream), not to a leak into the second one
+    again = [(i, dict(c, vtl=c['vtl'].split('; ', 1)[0].replace('DS_p <-', 'DS_r <-', 1) + ';')) for i, (c, v, d, e, a) in enumerate(res)
+             if 'after-another-join' in str(c.get('variant')) and v.startswith('DISAGREE') and e[0] in ('raw', 'vtl')]
+    if again:
+        outs2 = R.run_engine([c2 for _, c2 in again], budget=90, rop=False)
+        for (i, _), e2 in zip(again, outs2):
+            c, v, d, e, a = res[i]
+            if e2[0] in ('raw', 'vtl') and e2[1] == e[1]:
+                res[i] = (c, 'skip:first-statement-fails-on-its-own', d, e, a)
     return res
 
 
@@ -273,6 +283,8 @@ def main(ck):
     n_gen = int(os.environ.get('VERIF_N', 260 if q else 2400))
     for i in range(n_gen):
         cases.append(jg.case(must_resolve=(i % 12 != 0)))
+    for i in range(60 if q else 600):          # state must not leak from one join statement into the next
+        cases.append(jg.case(must_resolve=True, prefix=True))
     res = run_cases(ck, cases)
 
     hist = collections.Counter()
